@@ -8,6 +8,7 @@ import (
 	"encoding/binary"
 	"fmt"
 	"iter"
+	"net/netip"
 	"runtime"
 	"sort"
 	"strconv"
@@ -91,6 +92,55 @@ var (
 		Unique:     false,
 	}
 )
+
+// Table t1 declares its two LPM indexes as statedb.NetIPPrefixIndex (the IP-prefix front end of the same
+// lpmIndex): the harness key (data, len <= 16 bits) becomes the IPv6 prefix data::/len. All stored prefixes are
+// at most 16 bits long, so a full-length (128-bit) address lookup is decided by its first 16 bits.
+func lkeyAddr(k LKey) netip.Addr {
+	var a [16]byte
+	copy(a[:], k.Data)
+	return netip.AddrFrom16(a)
+}
+func lkeyPrefixSeq(ks []LKey) iter.Seq[netip.Prefix] {
+	return func(yield func(netip.Prefix) bool) {
+		for _, k := range ks {
+			if !yield(netip.PrefixFrom(lkeyAddr(k), k.Len)) {
+				return
+			}
+		}
+	}
+}
+
+var (
+	luIndexIP = statedb.NetIPPrefixIndex[*Obj]{
+		Name:       "lu",
+		FromObject: func(o *Obj) iter.Seq[netip.Prefix] { return lkeyPrefixSeq(o.LU) },
+		Unique:     true,
+	}
+	lnIndexIP = statedb.NetIPPrefixIndex[*Obj]{
+		Name:       "ln",
+		FromObject: func(o *Obj) iter.Seq[netip.Prefix] { return lkeyPrefixSeq(o.LN) },
+		Unique:     false,
+	}
+)
+
+// lq: the query for LPM key k through index `which` ("lu" | "ln") of table tab
+func lq(tab int, which string, k LKey, lookup bool) statedb.Query[*Obj] {
+	if tab == 1 {
+		ix := lnIndexIP
+		if which == "lu" {
+			ix = luIndexIP
+		}
+		if k.Len == 16 && lookup {
+			return ix.Query(lkeyAddr(k))
+		}
+		return ix.QueryPrefix(netip.PrefixFrom(lkeyAddr(k), k.Len))
+	}
+	if which == "lu" {
+		return luIndex.Query(k.Data, statedb.PrefixLen(k.Len))
+	}
+	return lnIndex.Query(k.Data, statedb.PrefixLen(k.Len))
+}
 
 func parseLKey(s string) LKey {
 	p := strings.Split(s, ":")
@@ -278,7 +328,13 @@ func (e *eng) Case(id string) {
 	e.lastLive = []map[string]bool{{}, {}}
 	e.gcAt.Store("idle")
 	for i := 0; i < 2; i++ {
-		t, err := statedb.NewTable(e.db, fmt.Sprintf("t%d", i), idIndex, uIndex, nIndex, luIndex, lnIndex)
+		var t statedb.RWTable[*Obj]
+		var err error
+		if i == 1 {
+			t, err = statedb.NewTable(e.db, fmt.Sprintf("t%d", i), idIndex, uIndex, nIndex, luIndexIP, lnIndexIP)
+		} else {
+			t, err = statedb.NewTable(e.db, fmt.Sprintf("t%d", i), idIndex, uIndex, nIndex, luIndex, lnIndex)
+		}
 		if err != nil {
 			panic(err)
 		}
@@ -394,7 +450,7 @@ func (e *eng) dump(txn statedb.ReadTxn) string {
 		fmt.Fprintf(&sb, "t%d rev=%d num=%d all=%s", i, t.Revision(txn), t.NumObjects(txn), seqS(t.All(txn)))
 		fmt.Fprintf(&sb, " u=%s n=%s nlb=%s rev=%s", seqS(t.Prefix(txn, uIndex.Query([]byte{}))), seqS(t.Prefix(txn, nIndex.Query([]byte{}))),
 			seqS(t.LowerBound(txn, nIndex.Query([]byte{}))), seqS(t.LowerBound(txn, statedb.ByRevision[*Obj](0))))
-		fmt.Fprintf(&sb, " lu=%s ln=%s", seqS(t.Prefix(txn, luIndex.Query([]byte{}, 0))), seqS(t.Prefix(txn, lnIndex.Query([]byte{}, 0))))
+		fmt.Fprintf(&sb, " lu=%s ln=%s", seqS(t.Prefix(txn, lq(i, "lu", LKey{}, false))), seqS(t.Prefix(txn, lq(i, "ln", LKey{}, false))))
 		// point lookups: every object the snapshot lists is found under its primary key, under each of its
 		// unique keys and among the objects of each of its non-unique keys (descents that compare node prefixes,
 		// not only full iteration)
@@ -454,7 +510,7 @@ func (e *eng) interfere(tab int) {
 			}
 		}
 		for _, k := range o.LU {
-			for range t.List(txn, luIndex.Query(k.Data, statedb.PrefixLen(k.Len))) {
+			for range t.List(txn, lq(tab, "lu", k, true)) {
 			}
 		}
 		for range t.LowerBound(txn, idIndex.Query(o.ID)) {
@@ -571,12 +627,8 @@ func (e *eng) runQuery(txn statedb.ReadTxn, tab int, q []string) (res string, wa
 	t := e.tabs[tab]
 	mkq := func() statedb.Query[*Obj] {
 		switch q[1] {
-		case "lu":
-			k := parseLKey(q[2])
-			return luIndex.Query(k.Data, statedb.PrefixLen(k.Len))
-		case "ln":
-			k := parseLKey(q[2])
-			return lnIndex.Query(k.Data, statedb.PrefixLen(k.Len))
+		case "lu", "ln":
+			return lq(tab, q[1], parseLKey(q[2]), q[0] == "get" || q[0] == "list")
 		}
 		return e.query(q[1], hx.UnHex(q[2]))
 	}
@@ -864,12 +916,8 @@ func (e *eng) Op(f []string, line string, out *hx.Out) {
 		var res string
 		mkq := func() statedb.Query[*Obj] {
 			switch f[4] {
-			case "lu":
-				k := parseLKey(f[5])
-				return luIndex.Query(k.Data, statedb.PrefixLen(k.Len))
-			case "ln":
-				k := parseLKey(f[5])
-				return lnIndex.Query(k.Data, statedb.PrefixLen(k.Len))
+			case "lu", "ln":
+				return lq(tab, f[4], parseLKey(f[5]), f[3] == "get" || f[3] == "list")
 			}
 			return e.query(f[4], hx.UnHex(f[5]))
 		}
